@@ -251,7 +251,7 @@ def check_locs(drv, ev, f, secs, toff, cases, builder, rnd, version, recipe):
                             bad = "element #%d has position %d" % (i, lle["p"])
                         elif (int(lle["low"]), int(lle["high"])) != (lo, hi):
                             bad = "element #%d covers %#x..%#x, stored %#x..%#x" % (i, int(lle["low"]), int(lle["high"]), lo, hi)
-                        elif hi != (1 << 64) - 1 and [(int(s), int(l)) for s, l in addr[0]["r"]] != ([(lo, hi - lo)] if hi > lo else []):
+                        elif [(int(s), int(l)) for s, l in addr[0]["r"]] != ([(lo, hi - lo)] if hi > lo else []):
                             bad = "`address` of element #%d is %r, the range is %#x..%#x" % (i, addr[0]["r"], lo, hi)
                         elif [int(x["v"]) for x in length] != [len(ops)] or len(elem) != len(ops):
                             bad = "length %r, elem yields %d, %d operations stored" % ([x["v"] for x in length], len(elem), len(ops))
@@ -552,7 +552,7 @@ def main(tier, seed):
     return finish(PID, tier, seed, ev, RULE, t0,
                   assumptions=["libdw's expression decoder (dwarf_getlocations) is trusted for well-formed expressions; branch operations are not generated (libdw validates their targets)",
                                "operands that reference a type DIE may be reported as the DIE or as its (unit-relative or absolute) offset",
-                               "whole-address-space elements (single expressions) are compared by low/high, not through `address`"],
+                               "the element of a single expression covers 0..0xffffffffffffffff; `address` of it is the set [0, 2^64-1) (the last address is not representable in an address set, C16)"],
                   health={"lists and expressions": ev.labels.get("loc:list", 0) > 100 and ev.labels.get("loc:expr", 0) > 100,
                           "multi-range lists": sum(ev.labels.get("ranges:%d" % k, 0) for k in (2, 3, 5)) > 50,
                           "?OP_x checked": ev.labels.get("?OP_x", 0) > 100,
